@@ -53,6 +53,9 @@ CLAIMED = {
     'C14': ("Coq proof over a pipe/process transition system for every program, capacity and schedule: no deadlock, termination measure, complete capture; strategy regenerated from source",
             "Theorems: for the concurrent draining strategy (regenerated from RunCommand's AST) every reachable non-final state has a successor, a measure strictly decreases on every step (no fairness needed), and every final state holds the in-order concatenation per stream and the exact status (-1 for a signal), for all child programs, pipe capacities, chunkings and schedules; the sequential strategy has a constructed deadlock." + CORR,
             "DESIGN.md §5 C14", "Kernel pipes, os/exec internals and scheduling are outside the model; the deadline-bounded real runs are runtime evidence."),
+    'C15': ("Coq proof: every modelled entry point returns Ok or Err, never Panic (pipeline by induction on fuel); inventory of potential panic sites regenerated from source and discharged site by site; hostile-input runs with recover and deadlines, fuzzing in the thorough tier",
+            "Theorems: the models of UnpackRule, the glob, both loaders, the validators, Sign/VerifySignature/SetPayload (with the signer-verifier constructors and their length/type preconditions as explicit Panic outcomes), the threshold stage and the whole pipeline (for every fuel, every component choice that does not panic and leaves a non-empty entry per step) never return Panic; the explicit panics of verifylib.go are reached iff a step has no link, which the threshold stage excludes. The inventory of potential panic sites (index, slice, unchecked assertion, panic(), nil-map write, deref) regenerated from the Go source equals the pinned one, each site justified by a theorem, a syntactic guard fact or a pinned function hash. Runtime: every public entry point on arbitrary bytes, structure-aware mutations at every field, degenerate layouts, hostile keys/signatures/link directories (FIFOs, symlinks, 1000 files) under recover() and deadlines; PANIC or HANG is a violation." + CORR,
+            "DESIGN.md §5 C15", "Panics inside third-party/stdlib code beyond the modelled call contracts and 'never fails to return' for the real code are carried by the deadline-bounded runs and the fuzzing search, not by a theorem."),
     'C16': ("Coq proof: write-free threads are serialisable under every interleaving; inventory of package-level state regenerated from source; race-detector runs",
             "Theorems over an interleaving semantics of n threads on a shared store: threads that neither write shared variables nor read written ones return, under every schedule, exactly their sequential results (general disjoint-footprint commutation theorem); the regenerated inventory of writes to / aliases of package-level variables of in_toto is empty (by reflexivity), so library calls on independent data fall under the theorem. Runtime evidence: 2-32 goroutines of mixed independent calls under the race detector compared with the sequential run, cold-start processes included." + CORR,
             "DESIGN.md §5 C16", "The Go memory model, races inside the standard library or third-party packages and state shared through arguments or the process environment are outside the abstraction; a clean race-detector run is evidence, not proof."),
